@@ -40,6 +40,11 @@ type c36Case struct {
 	// Bystander (history mode, 0 = none): another lookup of the same service for server id c36Servers[Bystander-1]
 	// is already running on the bus when the tested lookup starts
 	Bystander int `json:"bystander,omitempty"`
+	// Strip (history mode): the providers strip their prefix from the service id before handing the call over
+	Strip bool `json:"strip,omitempty"`
+	// Ghost (history mode): bit i set = provider i matches the lookup but has no service to offer (its builder reports
+	// "not found"): it is registered and removed like the others and never counts as a provider
+	Ghost int `json:"ghost,omitempty"`
 }
 
 var c36Servers = []string{"", "server-a", "server-b"}
@@ -54,6 +59,10 @@ func genC36(t *rapid.T) c36Case {
 			c.Ops = append(c.Ops, c36Op{Op: "toggle", I: rapid.SampledFrom([]int{0, 0, 0, 1, 1, 2}).Draw(t, "i")})
 		}
 		c.Service = "svc/" + rapid.StringMatching(`[a-c]{1,3}`).Draw(t, "svc")
+		c.Strip = rapid.Bool().Draw(t, "strip")
+		if rapid.IntRange(0, 2).Draw(t, "ghosts") == 0 {
+			c.Ghost = rapid.IntRange(1, 7).Draw(t, "ghost")
+		}
 		if rapid.Bool().Draw(t, "filtered") {
 			c.Filtered = true
 			c.Server = rapid.SampledFrom(c36Servers).Draw(t, "server")
@@ -207,6 +216,9 @@ func checkC36(c c36Case) (o vstat.Outcome) {
 	}
 	// serves says whether provider i answers the tested lookup
 	serves := func(i int) bool {
+		if c.Ghost&(1<<i) != 0 {
+			return false
+		}
 		if !c.Filtered || c36Filters[i] == "" {
 			return true
 		}
@@ -280,7 +292,12 @@ func checkC36(c c36Case) (o vstat.Outcome) {
 			if c.Filtered && c36Filters[op.I] != "" {
 				sre = regexp.MustCompile(c36Filters[op.I])
 			}
-			ctrl := bifrost_rpc.NewRpcServiceController(info(fmt.Sprintf("verif/provider-%d", op.I)), bifrost_rpc.NewRpcServiceBuilder(&recInvoker{}), []string{"svc/"}, false, nil, nil, sre)
+			var inv srpc.Invoker = &recInvoker{}
+			if c.Ghost&(1<<op.I) != 0 {
+				inv = nil
+				o.Classes = append(o.Classes, "provider-without-service-registered")
+			}
+			ctrl := bifrost_rpc.NewRpcServiceController(info(fmt.Sprintf("verif/provider-%d", op.I)), bifrost_rpc.NewRpcServiceBuilder(inv), []string{"svc/"}, c.Strip, nil, nil, sre)
 			rel, err := tb.Bus.AddController(ctx, ctrl, nil)
 			if err != nil {
 				o.Discard = true
